@@ -451,7 +451,7 @@ fn family(rng: &mut Rng, sents: &[String]) -> Vec<(String, Mode)> {
 
 fn replay(ctx: &Ctx, v: Value) {
     let mut sess = Session::new(ctx);
-    if crate::rules::replay(&mut sess, &v) || crate::leaves::replay(&mut sess, &v) || crate::prules::replay(&mut sess, &v) || crate::rules2::replay(&mut sess, &v) {
+    if crate::rules::replay(&mut sess, &v) || crate::leaves::replay(&mut sess, &v) || crate::prules::replay(&mut sess, &v) || crate::rules2::replay(&mut sess, &v) || crate::mrules::replay(&mut sess, &v) {
         sess.nontrivial("replay-a");
         sess.nontrivial("replay-b");
         sess.finish("replay of one recorded rule input", false, json!({}));
@@ -811,8 +811,9 @@ pub fn run(ctx: &Ctx) {
     crate::leaves::run_into(&mut sess, ctx, &mut rng);
     crate::prules::run_into(&mut sess, ctx, &mut rng);
     crate::rules2::run_into(&mut sess, ctx, &mut rng);
+    crate::mrules::run_into(&mut sess, ctx, &mut rng);
     sess.finish(
-        &format!("{} {} {} {} {}", crate::rules::RULE, crate::leaves::RULE, crate::prules::RULE, crate::rules2::RULE, "corpus (the witnesses of Props/C03.lean); EXHAUSTIVE: every text of length ≤5 over {a,b} (quick) / ≤6 over {a,b,c} (thorough) × every span 0 ≤ s,e ≤ len+1 incl. start > end and end > len × Remove, ReplaceWith and InsertAfter with every replacement of length 0..3 over {b,x}; texts of distinct characters up to length 8/10 × spans up to len+2; all pull_by/push_by with values ≤ 4/5; span() of all lists of ≤3 tokens with endpoints ≤3; all pairs of edits on texts of ≤3/4 distinct characters back to front; RANDOM: texts up to 160 chars incl. non-ASCII with in-range, zero-width, past-the-end and reversed spans; sorted disjoint edit lists. O: documents built from the rule tests' sentences (1–3 concatenated, truncated, multi-byte and markup characters spliced in), each linted with every rule on (American, British) or the curated defaults, as plain English and as Markdown, by long-lived LintGroups, also embedded after prefixes so cached chunks are replayed at another offset: every lint start ≤ end ≤ len, every suggestion applied by the real apply = independent splice; remove_overlaps + back-to-front fix-all = simultaneous substitution. Non-trivial = result differs from the input text or panics; distinct by op line."),
+        &format!("{} {} {} {} {} {}", crate::rules::RULE, crate::leaves::RULE, crate::prules::RULE, crate::rules2::RULE, crate::mrules::RULE, "corpus (the witnesses of Props/C03.lean); EXHAUSTIVE: every text of length ≤5 over {a,b} (quick) / ≤6 over {a,b,c} (thorough) × every span 0 ≤ s,e ≤ len+1 incl. start > end and end > len × Remove, ReplaceWith and InsertAfter with every replacement of length 0..3 over {b,x}; texts of distinct characters up to length 8/10 × spans up to len+2; all pull_by/push_by with values ≤ 4/5; span() of all lists of ≤3 tokens with endpoints ≤3; all pairs of edits on texts of ≤3/4 distinct characters back to front; RANDOM: texts up to 160 chars incl. non-ASCII with in-range, zero-width, past-the-end and reversed spans; sorted disjoint edit lists. O: documents built from the rule tests' sentences (1–3 concatenated, truncated, multi-byte and markup characters spliced in), each linted with every rule on (American, British) or the curated defaults, as plain English and as Markdown, by long-lived LintGroups, also embedded after prefixes so cached chunks are replayed at another offset: every lint start ≤ end ≤ len, every suggestion applied by the real apply = independent splice; remove_overlaps + back-to-front fix-all = simultaneous substitution. Non-trivial = result differs from the input text or panics; distinct by op line."),
         true,
         json!({
             "exhaustive_scope": format!("texts ≤{} over {:?}; spans 0..len+1 (invalid included); replacements of length 0..3 over [b,x]", maxlen, alpha),
